@@ -557,3 +557,52 @@ def loop_progress(chk, rule, f, is_progress, label, implied_nonempty=True):
                f.where(h.ast), path=cfg.fmt_path(w, f.relpath) if w else None,
                detail="a round that consumes nothing repeats for ever on the same bytes", construct=f.ident,
                text="loop without progress at while `%s`" % short(h.ast.test, 40))
+
+
+QUERY_PREFIXES = ("find_", "is_", "has_", "get_", "can_", "_find_", "_is_", "_has_", "_get_", "_can_", "check_", "_check_")
+
+
+def query_methods(repo, prefix="mpf/"):
+    """name -> [Func]: methods that are queries by shape: every return carries a value, no yield, and the body stores nothing
+    into attributes or subscripts (locals only) -- calling one and dropping its result is always a slip."""
+    out = {}
+    for f in repo.all_funcs(prefix):
+        if "/tests/" in f.relpath or not f.name.startswith(QUERY_PREFIXES):
+            continue
+        rets = [x for x in walk_local(f.node) if isinstance(x, ast.Return)]
+        if not rets or any(r.value is None or (isinstance(r.value, ast.Constant) and r.value.value is None) for r in rets):
+            continue
+        impure = False
+        for x in walk_local(f.node):
+            if isinstance(x, (ast.Yield, ast.YieldFrom, ast.Raise, ast.Await)):
+                impure = True       # raising / awaiting is an effect a caller may want without the value
+            if isinstance(x, ast.Expr) and isinstance(x.value, ast.Call):
+                t_ = src(x.value.func)
+                if not (t_.endswith(("debug_log", "info_log", "warning_log", "error_log")) or ".log." in t_ or t_.startswith("log.")):
+                    impure = True   # calls something for its effect
+            if isinstance(x, (ast.Assign, ast.AugAssign, ast.Delete)):
+                tg = x.targets if isinstance(x, (ast.Assign, ast.Delete)) else [x.target]
+                if any(isinstance(t, (ast.Attribute, ast.Subscript)) for t in tg):
+                    impure = True
+        # falls off the end without return?
+        cfg = f.cfg()
+        preds = [cfg.nodes[p_] for p_ in cfg.nodes[cfg.exit.id].pred]
+        if any(not (p_.kind == "stmt" and isinstance(p_.ast, ast.Return)) for p_ in preds):
+            impure = True
+        if not impure:
+            out.setdefault(f.name, []).append(f)
+    return out
+
+
+def discarded_query_calls(repo, func, queries):
+    """Expression statements in func that call a query method (by attribute name) and drop the result."""
+    out = []
+    for st in walk_local(func.node):
+        if not isinstance(st, ast.Expr):
+            continue
+        v = st.value
+        if isinstance(v, ast.Await):
+            v = v.value
+        if isinstance(v, ast.Call) and isinstance(v.func, ast.Attribute) and v.func.attr in queries:
+            out.append((st, v.func.attr))
+    return out
